@@ -8,7 +8,7 @@
 (* its own against HashCodec.tla / Distance.tla / Serde.tla.               *)
 (* STRICT is the strictness of the build that produced the trace.          *)
 (***************************************************************************)
-EXTENDS Distance, Json, IOUtils, TLCExt
+EXTENDS Distance, Serde, Json, IOUtils, TLCExt
 
 Rec == ndJsonDeserialize(IOEnv.TRACE)
 STRICT == IOEnv.STRICT = "1"
@@ -183,8 +183,38 @@ TEncodeTable ==
           Ev.m[x + 1] = (IF Ev.rev THEN <<HexUpper(x % 16), HexUpper(x \div 16)>>
                                    ELSE <<HexUpper(x \div 16), HexUpper(x % 16)>>)
 
+-----------------------------------------------------------------------------
+(* serde (C16).                                                            *)
+
+\* serialization through real formats and through the recording mock
+TSer ==
+    /\ IsEvent("ser") /\ NoPanic
+    /\ LET v == V IN
+       /\ IsHashValue(v, Ev.h)
+       /\ Ev.json.ok /\ Ev.json.doc = SerDoc(v, Ev.h, "json")
+       /\ Ev.cbor.ok /\ Ev.cbor.doc = SerDoc(v, Ev.h, "cbor")
+       /\ Ev.postcard.ok /\ Ev.postcard.doc = SerDoc(v, Ev.h, "postcard")
+       /\ Ev.mock_h = SerOf(v, Ev.h, TRUE) /\ Ev.mock_c = SerOf(v, Ev.h, FALSE)
+       \* ... and back
+       /\ Ev.back_json = ResOk(Ev.h) /\ Ev.back_cbor = ResOk(Ev.h) /\ Ev.back_postcard = ResOk(Ev.h)
+
+\* deserialization of one visitor event from the scripted mock format
+TDe ==
+    /\ IsEvent("de") /\ NoPanic
+    /\ HintAllowed(Ev.human, Ev.hint)
+    /\ DeAllows(V, Ev.human, Ev.ev, Ev.payload, STRICT, Ev.r)
+
+\* deserialization of a document of a real format: `kind` says what the
+\* document holds ("str" / "bytes" with that payload, or something else)
+TDeDoc ==
+    /\ IsEvent("de_doc") /\ NoPanic
+    /\ LET human == Ev.fmt = "json"
+           ev == CASE Ev.kind = "str" -> "str" [] Ev.kind = "bytes" -> "bytes" [] OTHER -> "other" IN
+       DeAllows(V, human, ev, Ev.payload, STRICT, Ev.r)
+
 TraceNext ==
     \/ (TFmt /\ TRUE) \/ TFmtSweep \/ TParse \/ TParseSweep \/ TFromBytes \/ TStore
+    \/ TSer \/ TDe \/ TDeDoc
     \/ TCmp \/ TDistMatrix \/ TBodyMatrix \/ TBodyDist \/ TCmpStr \/ TDecodeMatrix \/ TEncodeTable
 
 TraceInit == l = 1
